@@ -155,6 +155,18 @@ pub enum InvalidSchemaError {
 
     #[error("The \"schema\" definition does not declare a root query type.")]
     MissingQueryType,
+
+    #[error(
+        "The \"schema\" definition names \"{0}\" as the root query type, but no type \
+        with that name is defined in this schema."
+    )]
+    UndefinedQueryType(String),
+
+    #[error(
+        "The \"schema\" definition names \"{0}\" as the root query type, but \"{0}\" is \
+        not an object type. The root query type must be defined with the \"type\" keyword."
+    )]
+    QueryTypeNotAnObject(String),
 }
 
 impl From<Vec<InvalidSchemaError>> for InvalidSchemaError {
